@@ -742,6 +742,31 @@ type cursorClient struct {
 	quietPass bool // a pass that only computes needs
 }
 
+// Inline: besides predicates, small look-ahead helpers of the parser that only read and give back tokens
+// (accept(kind): `tok, _ := p.next(); if tok.Kind != kind { p.prev(); return tok, false }; return tok, true`) are
+// read where they are called.
+func (c *cursorClient) Inline(e *Engine, call *ast.CallExpr, callee *types.Func, decl *ast.FuncDecl) bool {
+	if c.InlinePredicates.Inline(e, call, callee, decl) {
+		return true
+	}
+	if cursorOf(callee) != "parser" || !smallBody(decl) || fnName(callee) == "next" || fnName(callee) == "prev" || isSplitter(e.P, callee) {
+		return false
+	}
+	simple := true
+	ast.Inspect(decl.Body, func(n ast.Node) bool {
+		switch v := n.(type) {
+		case *ast.ForStmt, *ast.RangeStmt:
+			simple = false
+		case *ast.CallExpr:
+			if f := Callee(e.Info, v); cursorOf(f) == "parser" && fnName(f) != "next" && fnName(f) != "prev" {
+				simple = false
+			}
+		}
+		return simple
+	})
+	return simple
+}
+
 // SplitAssign: `tok, ok := x.next()` continues as (a token was read) or (the end of the range was reported, after
 // which the cursor lies beyond the tokens).
 func (c *cursorClient) SplitAssign(e *Engine, st *State, lhs, rhs []ast.Expr, _ ast.Stmt) []*State {
@@ -839,6 +864,9 @@ func (c *cursorClient) PostAssign(e *Engine, st *State, lhs, rhs []ast.Expr, _ a
 func (c *cursorClient) PostCall(e *Engine, st *State, call *ast.CallExpr, callee *types.Func) *State {
 	if cursorOf(callee) != "parser" {
 		return nil
+	}
+	if _, inPlace := e.inlined[call]; inPlace {
+		return nil // a helper read in place (accept(kind)): its own reads and give-backs are what counts
 	}
 	sel, ok := ast.Unparen(call.Fun).(*ast.SelectorExpr)
 	if !ok {
